@@ -177,11 +177,16 @@ def timer_jobs(props, quick):
         'timer-leaf': [A('ta', 'a'), A('tb', 'b', inputs=[('ta', 'a', None, None)], ev=ev)],
         'timer-root': [A('ta', 'a', ev=ev), A('tb', 'b', inputs=[('ta', 'a', None, None)])],
         'timer-analysis': [A('ta', 'a'), A('tz', 'z', 'analysis', inputs=[('ta', 'a', 's', None)], ev=ev)],
+        # two events of one algorithm that can be due in the same pass
+        'timer-boot+weekly': [A('ta', 'a', ev=[{'boot': True}] + ev), A('tb', 'b', inputs=[('ta', 'a', None, None)])],
     }
     out = []
     for name, algs in E.items():
-        out.append((name, {'style': 'legacy', 'algs': algs}, ['A'], props,
-                    {'reqs': 2, 'clock_at': '2024-01-10T02:00:00+00:00', 'max_timers': 2}))
+        opts = {'reqs': 2, 'clock_at': '2024-01-10T02:00:00+00:00', 'max_timers': 2}
+        if name == 'timer-boot+weekly':
+            # boot within the firing window of the weekly event
+            opts = {'reqs': 1, 'clock_at': '2024-01-10T02:57:00+00:00', 'max_timers': 2}
+        out.append((name, {'style': 'legacy', 'algs': algs}, ['A'], props, opts))
     if 'C04' in props:
         # a data base that knows no target yet ("every target set, including none")
         for name in ('timer-root', 'timer-analysis'):
